@@ -124,8 +124,64 @@ func isNullPredicate(v ssa.Value) bool {
 		if o.Name() == "isNull" || o.Name() == "IsNull" {
 			return true
 		}
+		// the result of a helper that answers nil exactly for a null cell, used as `the cell is null` (guards of the
+		// form `p == nil` / `p != nil` are normalised to (p, outcome) by unNot)
+		if callee := t.Call.StaticCallee(); callee != nil && isNilIffNullHelper(callee) {
+			return true
+		}
 	}
 	return false
+}
+
+var nilIffNullMemo = map[*ssa.Function]bool{}
+
+// isNilIffNullHelper: a module function with one pointer result that returns the nil constant exactly on the paths
+// on which a null predicate of its argument holds, and the address of something (never nil) on all others.
+func isNilIffNullHelper(fn *ssa.Function) bool {
+	if v, ok := nilIffNullMemo[fn]; ok {
+		return v
+	}
+	nilIffNullMemo[fn] = false
+	if fn.Blocks == nil || fn.Pkg == nil || !inModule(fn.Pkg.Pkg) || fn.Signature.Results().Len() != 1 {
+		return false
+	}
+	if _, ok := fn.Signature.Results().At(0).Type().Underlying().(*types.Pointer); !ok {
+		return false
+	}
+	nNil, nVal, ok := 0, 0, true
+	eachInstr(fn, func(in ssa.Instruction) {
+		ret, isRet := in.(*ssa.Return)
+		if !isRet {
+			return
+		}
+		underNull, underNotNull := false, false
+		for _, g := range dominatingGuards(ret.Block()) {
+			if isNullPredicate(g.Cond) {
+				if g.Val {
+					underNull = true
+				} else {
+					underNotNull = true
+				}
+			}
+		}
+		switch t := ret.Results[0].(type) {
+		case *ssa.Const:
+			if !t.IsNil() || !underNull {
+				ok = false
+			}
+			nNil++
+		case *ssa.IndexAddr, *ssa.FieldAddr, *ssa.Alloc:
+			if !underNotNull {
+				ok = false
+			}
+			nVal++
+		default:
+			ok = false
+		}
+	})
+	res := ok && nNil > 0 && nVal > 0
+	nilIffNullMemo[fn] = res
+	return res
 }
 
 type tri int
